@@ -7,6 +7,8 @@ left-over state is tested by the differential replays of tools/checks/c06.py.
 -/
 import CelerVerif.Model.ReindexSlotInit
 import CelerVerif.Lemmas.ReindexBasic
+import CelerVerif.Lemmas.ReindexCount
+import CelerVerif.Lemmas.ReindexPerm
 import CelerVerif.Props.C13
 
 namespace CelerVerif.Reindex
@@ -67,44 +69,133 @@ example : launch (fun s (x : Nat) => x + 10 * s) [2, 0, 1] [1, 1, 1] = [1, 11, 2
 
 /-! ### action ranges of a key-sorted thread array -/
 
-/-- PARTIAL (`action_ranges_exact`): proved for the SPECIFICATION of the offsets
-    (`offsetSpec keys a` = number of threads whose action is valid and below `a`): in a
-    key-sorted thread array, thread `t` carries action `a` iff `offsetSpec a ≤ t < offsetSpec (a+1)`;
-    unset (null) actions are in no range.
-    Full statement (not proved): the same for `countTracksPerAction keys A` as the loop +
-    backfill are written.  As written the two differ exactly on the actions above the largest
-    present one, whose offsets are `size` instead of `numSet`, so the range of the largest
-    present action also contains the trailing threads with unset action (harmless: the
-    executors re-check the action id).  The as-written function is tied to the model by exact
-    correspondence and to this characterisation by the oracle in tools/checks/c06.py. -/
-theorem action_ranges_exact_partial (keys : List Id)
+/-- specification level: with `offsetSpec keys a` = number of threads whose action is valid and
+    below `a`, thread `t` of a key-sorted array carries action `a` iff
+    `offsetSpec a ≤ t < offsetSpec (a+1)`; unset actions are in no such range -/
+theorem offsets_spec_ranges (keys : List Id)
     (hs : keys.Pairwise (fun x y => idLe x y = true)) (a t : Nat) (k : Id)
     (hk : keys[t]? = some k) :
-    k = some a ↔ (offsetSpec keys a ≤ t ∧ t < offsetSpec keys (a + 1)) := by
-  have h1 := lt_offsetSpec_iff keys hs a t k hk
-  have h2 := lt_offsetSpec_iff keys hs (a + 1) t k hk
-  cases k with
-  | none =>
-    simp [keyLt] at h1 h2
-    constructor
-    · intro h; cases h
-    · rintro ⟨_, h⟩; omega
-  | some b =>
-    simp only [keyLt, decide_eq_true_eq] at h1 h2
-    constructor
-    · intro h
-      have : b = a := Option.some.inj h
-      omega
-    · rintro ⟨h3, h4⟩
-      have : b = a := by omega
-      rw [this]
+    k = some a ↔ (offsetSpec keys a ≤ t ∧ t < offsetSpec keys (a + 1)) :=
+  key_iff_range keys hs a t k hk
 
-/-- the as-written offsets on a concrete sorted array: the last present action's range runs to
-    the end of the array, over the two unset threads -/
+/-- closed form of `count_tracks_per_action` + `backfill_action_count` AS WRITTEN (the `i = 1..`
+    loop that records every change of action, the fix-up of thread 0, `offsets.back() = size`,
+    the right-to-left fill), for every key-sorted thread array of any size and any number of
+    actions: entry `a` is the first thread of the first present action ≥ a, and the array size
+    when no action ≥ a is present.  Hypothesis `hA` = the action ids index the offsets array. -/
+theorem count_tracks_per_action_closed_form (keys : List Id)
+    (hs : keys.Pairwise (fun x y => idLe x y = true)) (A : Nat)
+    (hA : ∀ b, some b ∈ keys → b < A) (a : Nat) (ha : a ≤ A) :
+    (countTracksPerAction keys A).getD a none = some (closedOffset keys a) :=
+  count_closed_form keys hs A hA a ha
+
+/-- ★ `[off[a], off[a+1])` as the code computes it (get_action_range), for every slot array
+    sorted by action key: it contains EXACTLY the threads whose slot has action `a`, and in
+    addition — only when `a` is the largest action present — the trailing threads whose action is
+    unset (their offsets are back-filled with `size`, not with the number of set threads).
+    Threads of any other valid action are never in the range; a range of an absent action is
+    empty. -/
+theorem action_ranges_exact (keys : List Id)
+    (hs : keys.Pairwise (fun x y => idLe x y = true)) (A : Nat)
+    (hA : ∀ b, some b ∈ keys → b < A) (a t : Nat) (k : Id) (ha : a < A)
+    (hk : keys[t]? = some k) :
+    ((actionRange (countTracksPerAction keys A) a).1 ≤ t ∧
+      t < (actionRange (countTracksPerAction keys A) a).2) ↔
+    (k = some a ∨
+      (k = none ∧ presentGe keys a = true ∧ presentGe keys (a + 1) = false)) := by
+  unfold actionRange
+  rw [count_closed_form keys hs A hA a (by omega), count_closed_form keys hs A hA (a + 1) (by omega)]
+  simp only [Option.getD_some]
+  have htn : t < keys.length := (List.getElem?_eq_some_iff.mp hk).1
+  have hmem : k ∈ keys := List.mem_of_getElem? hk
+  have hge : ∀ c b, some b ∈ keys → c ≤ b → presentGe keys c = true := by
+    intro c b hb hcb
+    unfold presentGe
+    exact List.any_eq_true.mpr ⟨some b, hb, by simpa using hcb⟩
+  have hle : ∀ c b, some b ∈ keys → presentGe keys c = false → b < c := by
+    intro c b hb hf
+    by_cases h : c ≤ b
+    · rw [hge c b hb h] at hf; cases hf
+    · omega
+  have hlow := lt_offsetSpec_iff keys hs a t k hk
+  unfold closedOffset
+  cases g1 : presentGe keys (a + 1) with
+  | true =>
+    have g0 : presentGe keys a = true := by
+      unfold presentGe at g1 ⊢
+      rw [List.any_eq_true] at g1 ⊢
+      obtain ⟨x, hx, he⟩ := g1
+      refine ⟨x, hx, ?_⟩
+      cases x with
+      | none => simp at he
+      | some b => simp only [decide_eq_true_eq] at he ⊢; omega
+    simp only [g0, if_true]
+    rw [← key_iff_range keys hs a t k hk]
+    constructor
+    · intro h; exact Or.inl h
+    · rintro (h | ⟨_, _, h⟩)
+      · exact h
+      · cases h
+  | false =>
+    cases g0 : presentGe keys a with
+    | true =>
+      simp only [if_true, Bool.false_eq_true, if_false]
+      constructor
+      · rintro ⟨h1, _⟩
+        have hnl : ¬ (keyLt a k = true) := fun h => by have := hlow.mpr h; omega
+        cases k with
+        | none => exact Or.inr ⟨rfl, by simp⟩
+        | some b =>
+          left
+          have h2 := hle (a + 1) b hmem g1
+          simp [keyLt] at hnl
+          have : b = a := by omega
+          rw [this]
+      · rintro (h | ⟨h, _, _⟩)
+        · subst h
+          refine ⟨?_, htn⟩
+          have : ¬ (t < offsetSpec keys a) := fun h => by
+            have := hlow.mp h; simp [keyLt] at this
+          omega
+        · subst h
+          refine ⟨?_, htn⟩
+          have : ¬ (t < offsetSpec keys a) := fun h => by
+            have := hlow.mp h; simp [keyLt] at this
+          omega
+    | false =>
+      simp only [Bool.false_eq_true, if_false]
+      constructor
+      · rintro ⟨h1, _⟩; omega
+      · rintro (h | ⟨_, h, _⟩)
+        · subst h
+          rw [hge a a hmem (Nat.le_refl _)] at g0; cases g0
+        · cases h
+
+/-- ★ (needed by C05's frame argument) `sort_tracks` only permutes the indirection array, for
+    every order that is modelled: partition by status (libstdc++ `std::partition`), sort by
+    particle / along-step / step-limit action (`std::sort` with `IdLess`); `reindex_shuffle`
+    is `std::shuffle`, a permutation by definition.  Hence a valid indirection (a permutation of
+    the slots) stays one. -/
+theorem sortTracks_perm (slots : List Nat) (pred : Nat → Bool) (key : Nat → Id) (n : Nat) :
+    (partitionStd pred slots).Perm slots ∧ (sortByKey key slots).Perm slots ∧
+    (slots.Perm (List.range n) →
+      (partitionStd pred slots).Perm (List.range n) ∧ (sortByKey key slots).Perm (List.range n)) :=
+  ⟨partitionStd_perm pred slots, sortByKey_perm key slots,
+   fun h => ⟨(partitionStd_perm pred slots).trans h, (sortByKey_perm key slots).trans h⟩⟩
+
+example : partitionStd (fun s => [0, 2, 0, 1, 4, 0].getD s 0 != 0) [0, 1, 2, 3, 4, 5]
+    = [4, 1, 3, 2, 0, 5] := by decide
+example : sortByKey (fun s => [some 3, none, some 1, some 3, some 0, some 1].getD s none)
+    [0, 1, 2, 3, 4, 5] = [4, 2, 5, 0, 3, 1] := by decide
+
+/-- non-vacuity: the as-written offsets on a concrete sorted array — the last present action's
+    range [5, 8) runs to the end of the array, over the two unset threads; `closedOffset` agrees -/
 example : countTracksPerAction [some 0, some 0, some 2, some 2, some 2, some 4, none, none] 5 =
     [some 0, some 2, some 2, some 5, some 5, some 8] := by decide
 example : (List.range 6).map (offsetSpec [some 0, some 0, some 2, some 2, some 2, some 4, none, none])
     = [0, 2, 2, 5, 5, 6] := by decide
+example : (List.range 6).map (closedOffset [some 0, some 0, some 2, some 2, some 2, some 4, none, none])
+    = [0, 2, 2, 5, 5, 8] := by decide
 
 /-! ### an event's result is a function of (primaries, seed, event id, slot count) -/
 
